@@ -46,6 +46,18 @@ def open_rules(facts, rep, rule="C15-OPEN"):
             disc = any(x[0] == "Eq" and x[1] == ("discr", ("arg", 3, "password")) and x[2][2] == 1 for x in fs) and \
                 any(x[0] == "truth" and x[2] is False and "encrypted" in show(x[1]) for x in fs)
     ok &= rep.check(disc, rule, "password+plain=>discard", where(f, f.span), "a password given for an unencrypted entry is discarded", "a superfluous password is no longer discarded for unencrypted entries")
+    # the two *_decrypt wrappers hand the caller's password on as Some(password), unconditionally: the EMPTY password is a password
+    # (valid for ZipCrypto and WinZip-AES alike); "no password" is expressed by calling by_index / by_name
+    for nm, callee in (("by_index_decrypt", "by_index_with_optional_password"), ("by_name_decrypt", "by_name_with_optional_password")):
+        g = facts.one(ZA + nm + "$")
+        exg = Ex(g)
+        cs = calls_matching(g, ZA + callee + "$")
+        good = len(cs) == 1 and not any(t_ and t_["k"] == "switch" for t_ in (g.term(b_) for b_ in range(len(g.blocks)) if not g.blocks[b_]["cleanup"]))
+        if good:
+            pw = norm(exg.operand(cs[0][1]["args"][2], (cs[0][0], None)))
+            good = pw[0] == "agg" and pw[1] == "adt:Some" and pw[3][0][1][0] == "arg" and pw[3][0][1][2] == "password"
+        ok &= rep.check(good, rule, "%s:passes-Some(password)" % nm, where(g, g.span), "%s(.., password) = %s(.., Some(password))" % (nm, callee),
+                        "%s does not hand the caller's password on unchanged (an empty password, or some other class of passwords, is treated as absent)" % nm)
     # the crypto reader gets the entry's own parameters
     mc = calls_matching(f, r"^read::make_crypto_reader$")
     good = len(mc) == 1
